@@ -219,3 +219,59 @@ for _kind in ('line_comment', 'docstr', 'noedit'):
                               + ('then ' + ['nothing', 'remove', 'replace'][_sec] + ' of the touched statement and removal of its enclosing block (3-step history)' if _kind == 'line_comment' else ''),
                               tier='quick' if (_kind != 'line_comment' and _ti == 0) or (_kind == 'line_comment' and _ti == 0) else 'thorough',
                               budget=600, per_path=90, reset=pc.reset_globals))
+
+
+# ---------------------------------------------------------------------------------------------------------------- P3
+# node-level operations which rewrite source in place without going through put/put_slice: par(), unpar(), and value assignment
+PAR_SRCS = {
+    'tight': 'r = x if(a)else c\ns = [(b)for(b)in(d)]\n',
+    'arith': 'v = (a) + (b * (c)) - ((d))\nw = -(e) ** (f)\n',
+    'call': 'f((a), *(b), k=(c))  # cc\ng = h[(i)](j)\n',
+    'tuples': 't = (a, (b, c))\nfor (i) in (x), y: pass\n',
+    'uni': 'é = ("ñ") + (ü)  # ç\n',
+    'multi': 'm = (a +\n     (b) *\n     c)\nn = (  # c\n  d\n)\n',
+}
+PAR_OPS = [('par', {}), ('par', {'force': True}), ('unpar', {}), ('unpar', {'node': True}), ('par', {'whole': False})]
+
+
+def _mk_parops(key):
+    src = PAR_SRCS[key]
+
+    def fn(q: int, k: int, o: int):
+        assume(0 <= q < len(QK1) and 0 <= o < len(PAR_OPS))
+        qi = pc.pin(q, 0, len(QK1) - 1)
+        kind = QK1[qi]
+        meth, kw = PAR_OPS[pc.pin(o, 0, len(PAR_OPS) - 1)]
+        with pc.untraced():
+            root = FST(src, 'exec')
+            pc.reset_globals()
+            nodes = [n for n in ast.walk(root.a) if isinstance(n, ast.expr)]
+            dump0 = ast.dump(root.a)
+        assume(0 <= k < len(nodes))
+        node = nodes[pc.pin(k, 0, len(nodes) - 1)].f
+        sig = f'parops.{key}.{meth}{kw or ""}.after_{kind}'
+        prequery(root, kind)
+        try:
+            getattr(node, meth)(**kw)
+        except pc.EXPECTED_RAISES:
+            cover('raise')
+            check_fresh(root, root, sig + '.raise', qi % 3)
+            return
+        with pc.untraced():
+            try:
+                same = ast.dump(ast.parse(pc.R(root.src))) == dump0
+            except SyntaxError:
+                same = False
+        if not same:
+            cover('unsafe')       # unpar() is documented not to validate parsability: removing needed parentheses is the caller's business
+            return
+        check_fresh(root, root, sig, qi % 3)
+        cover('ok')
+    return fn
+
+
+for _k in PAR_SRCS:
+    CELLS.append(Cell(f'P3.parops[{_k}]', _mk_parops(_k), 'P', FNQ + ['fst.fst.FST.par', 'fst.fst.FST.unpar', 'fst.fst_core._parenthesize_grouping', 'fst.fst_core._unparenthesize_grouping'],
+                      f'carrier {PAR_SRCS[_k]!r}; pre-queries of a symbolic kind on all nodes; par() / par(force=True) / par(whole=False) / unpar() / unpar(node=True) on a symbolic expression ordinal; '
+                      'when the source still parses to the same structure every answer on every node equals a fresh tree',
+                      tier='quick', budget=600, per_path=90, out='unpar() results which change the structure (documented as the caller\'s responsibility)', reset=pc.reset_globals))
